@@ -281,6 +281,37 @@ theorem kwWrap_ok {o : Oracle} {kw : KW} {n : Nat} {h h' : Hdr} {items : List It
   | ecdhKW => simp [kwWrap] at hr; obtain ⟨⟨_, rfl⟩, rfl⟩ := hr; exact ⟨[], by simp, by simp⟩
   | invalid => simp [kwWrap] at hr
 
+/-- whether `WrapKey` draws is decided by the header VALUE it is given and by nothing else (the
+    state keeps no memory of headers): no `iv` (nil or empty) ⇒ the `iv` handed out is a drawn one;
+    no `p2s` ⇒ the salt handed out is a drawn one -/
+theorem kwWrap_fresh {o : Oracle} {kw : KW} {n : Nat} {h h' : Hdr} {items : List Item}
+    {s s' : St} (hr : (kwWrap kw n h).run o s = (.ok (h', items), s')) :
+    (kw = .gcmkw → (h.iv.getD []).length = 0 → ∃ b, items = [.kwIV b false]) ∧
+    (kw = .pbes2 → h.p2s = none → ∃ b c, items = [.salt b false, c]) := by
+  cases kw with
+  | gcmkw =>
+    refine ⟨fun _ h0 => ?_, nofun⟩
+    simp only [kwWrap, h0, if_true] at hr
+    obtain ⟨b, s1, _, h2⟩ := M.run_bind_eq_ok o _ _ _ _ _ hr
+    simp at h2
+    exact ⟨b, h2.1.2.symm⟩
+  | pbes2 =>
+    refine ⟨nofun, fun _ hp => ?_⟩
+    simp only [kwWrap, hp] at hr
+    obtain ⟨⟨h1, sItem⟩, s1, hr1, hr2⟩ := M.run_bind_eq_ok o _ _ _ _ _ hr
+    obtain ⟨b, s2, _, h4⟩ := M.run_bind_eq_ok o _ _ _ _ _ hr1
+    simp at h4
+    obtain ⟨⟨rfl, rfl⟩, rfl⟩ := h4
+    simp only at hr2
+    split at hr2
+    · simp at hr2
+    · simp at hr2; exact ⟨b, _, hr2.1.2.symm⟩
+  | akw => exact ⟨nofun, nofun⟩
+  | dir k => exact ⟨nofun, nofun⟩
+  | ecdhDirect => exact ⟨nofun, nofun⟩
+  | ecdhKW => exact ⟨nofun, nofun⟩
+  | invalid => exact ⟨nofun, nofun⟩
+
 /-- `DeriveKey`: a drawn CEK is one draw of exactly `CEKSize(enc)` bytes; otherwise nothing is drawn -/
 theorem kwDerive_ok {o : Oracle} {kw : KW} {e : Enc} {c : CekVal}
     {s s' : St} (h? : Option Hdr) (hr : (kwDerive kw e).run o s = (.ok c, s')) :
